@@ -124,6 +124,7 @@ class Law:
     exhaustive: Optional[Callable[[str], Optional[dict]]] = None  # tier -> {"name","size"} if fully enumerated
     drive: Optional[Callable[[str, int, int], dict]] = None  # custom driver (stateful machines)
     shard: int = 1500  # max hypothesis examples per worker process (thorough tier)
+    enum_shards: int = 1  # enumerated laws: number of worker processes the case list is dealt to
     mandatory: tuple = ()  # labels that must occur at least once
 
 
@@ -198,13 +199,16 @@ def drive_law(law: Law, tier: str, seed: int, shard_idx: int, n_examples: int) -
     """Run one (shard of a) law. Executed in a worker process."""
     t0 = time.time()
     res = _new_result(law)
-    lseed = (zlib.crc32(law.name.encode()) ^ (seed * 2654435761) ^ (shard_idx * 40503)) & 0xFFFFFFFF
+    lseed0 = (zlib.crc32(law.name.encode()) ^ (seed * 2654435761)) & 0xFFFFFFFF
+    lseed = (lseed0 ^ (shard_idx * 40503)) & 0xFFFFFFFF
     if law.drive is not None:
         out = law.drive(tier, lseed, n_examples)
         res.update(out)
         res["law"] = law.name
     elif law.enumerate is not None:
-        for case in law.enumerate(tier, lseed):
+        for j, case in enumerate(law.enumerate(tier, lseed0)):
+            if j % law.enum_shards != shard_idx % law.enum_shards:
+                continue
             try:
                 r = law.run(case)
             except Skip:
@@ -409,7 +413,8 @@ def main(argv=None) -> int:
             continue
         n = max(1, int(law.budget.get(args.tier, law.budget["quick"]) * args.scale))
         if law.enumerate is not None:
-            tasks.append((mod_name, law.name, args.tier, seed, 0, n))
+            for k in range(law.enum_shards):
+                tasks.append((mod_name, law.name, args.tier, seed, k, n))
         else:
             k = 0
             while n > 0:
